@@ -3,8 +3,10 @@ package c16
 import (
 	"bytes"
 	"fmt"
+	"math"
 	"math/rand"
 	"os"
+	"runtime/debug"
 	"sort"
 	"strconv"
 	"strings"
@@ -27,13 +29,14 @@ func (area) Name() string { return "ingest" }
 
 // Stable keys of the recorded findings (known_findings.json).
 const (
-	keyDupProto      = "dup-key-survivor-depends-on-tag-order:proto"
-	keyDupFlat       = "dup-key-survivor-depends-on-tag-order:flat"
-	keyDupInflux     = "dup-key-survivor-depends-on-tag-order:influx"
-	keyStaleMark     = "pooled-batch-stale-out-of-range-mark-drops-in-window-row"
-	keyFlatNs        = "flat-row-without-namespace-ignores-request-namespace"
-	keyInfluxInf     = "influx-inf-spelled-field-dropped-rest-of-row-stored"
-	keyInfluxMaxTags = "influx-ignores-max-tags-per-metric"
+	keyDupProto          = "dup-key-survivor-depends-on-tag-order:proto"
+	keyDupFlat           = "dup-key-survivor-depends-on-tag-order:flat"
+	keyDupInflux         = "dup-key-survivor-depends-on-tag-order:influx"
+	keyStaleMark         = "pooled-batch-stale-out-of-range-mark-drops-in-window-row"
+	keyFlatNs            = "flat-row-without-namespace-ignores-request-namespace"
+	keyInfluxInf         = "influx-inf-spelled-field-dropped-rest-of-row-stored"
+	keyInfluxMaxTags     = "influx-ignores-max-tags-per-metric"
+	keyInfluxSuffixPanic = "influx-field-value-of-a-lone-int-suffix-panics-the-request"
 )
 
 func (area) Run(c *core.Ctx) error {
@@ -46,6 +49,9 @@ func (area) Run(c *core.Ctx) error {
 		func() {
 			defer func() {
 				if p := recover(); p != nil {
+					if os.Getenv("VERIF_C16_DEBUG") != "" {
+						fmt.Fprintf(os.Stderr, "%s\n", debug.Stack())
+					}
 					c.Fail("panic", fmt.Sprintf("case %d panicked: %v", i, p))
 				}
 			}()
@@ -58,12 +64,15 @@ func (area) Run(c *core.Ctx) error {
 				witnessFlatNamespace(c)
 				witnessInfluxInf(c)
 				witnessInfluxMaxTags(c)
+				witnessInfluxSuffixPanic(c)
 			case i%4 == 0:
 				caseBatch(c, r)
 			case i%8 == 3:
 				caseEvict(c, r)
 			case i%8 == 5:
 				caseFlatStream(c, r)
+			case i%16 == 9:
+				caseInfluxFields(c, r)
 			case i%8 == 7:
 				caseSingle(c, r, 120) // malformed stream
 			default:
@@ -565,6 +574,27 @@ func checkRejectionAgreement(c *core.Ctx, r *rand.Rand, cf *cfg, m *lmetric, kin
 	}
 }
 
+// witnessInfluxSuffixPanic: a request of two lines, the second has a field whose value is the lone
+// integer suffix `i`.
+func witnessInfluxSuffixPanic(c *core.Ctx) {
+	cf := &cfg{lim: limits{isDefault: true}}
+	lines := []string{"cpu,h=1 ok_last=1 1700000000000", "cpu,h=2 a_last=i 1700000000000"}
+	rows, panicked := -1, false
+	func() {
+		defer func() {
+			if recover() != nil {
+				panicked = true
+			}
+		}()
+		if b, _ := parseInflux(cf, "ns", lines); b != nil {
+			rows = b.Len()
+		}
+	}()
+	if panicked || rows != 1 {
+		c.Fail(keyInfluxSuffixPanic, fmt.Sprintf("request %q: influx.Parse panicked=%v rows=%d — the invalid second line takes the valid first line of the batch down with it", lines, panicked, rows))
+	}
+}
+
 // witnessInfluxMaxTags: three distinct tags under max-tags-per-metric = 2.
 func witnessInfluxMaxTags(c *core.Ctx) {
 	cf := &cfg{lim: limits{maxName: 256, maxField: 128, maxTagKey: 128, maxTagVal: 1024, maxTags: 2, maxFields: 256}}
@@ -947,6 +977,7 @@ func caseBatch(c *core.Ctx, r *rand.Rand) {
 	cv, release := metric.NewBrokerRowProtoConverter([]byte(cf.reqNs), cf.realEnriched(), cf.lim.real())
 	defer release(cv)
 	var b *metric.BrokerBatchRows
+	pooledMarked := false
 	if r.Intn(3) == 0 {
 		// the batch object of an earlier, LARGER request comes back from the pool (channelManager.Write
 		// releases it): its slots beyond this request's rows still hold the earlier request's rows
@@ -958,6 +989,10 @@ func caseBatch(c *core.Ctx, r *rand.Rand) {
 		}
 		sit := old.NewShardGroupIterator(int32(numShards))
 		for sit.HasRowsForNextShard() {
+		}
+		if r.Intn(2) == 0 {
+			old.EvictOutOfTimeRange(1, 1) // every row of the earlier request ends up marked
+			pooledMarked = true
 		}
 		old.Release()
 		b = metric.NewBrokerBatchRows()
@@ -1028,6 +1063,15 @@ func caseBatch(c *core.Ctx, r *rand.Rand) {
 	}
 	if len(rows) == 0 {
 		return
+	}
+	// whatever the pooled object held: the rows of this request are exactly the accepted ones, unmarked
+	if b.Len() != len(rows) {
+		c.Fail("batch-length-not-accepted-rows", fmt.Sprintf("%d metrics accepted, batch.Len() = %d", len(rows), b.Len()))
+	}
+	for k := range b.Rows() {
+		if b.Rows()[k].IsOutOfTimeRange {
+			c.Fail("stale-mark-on-appended-row", fmt.Sprintf("row %d of the request carries IsOutOfTimeRange before any eviction (pooled batch, earlier rows marked: %v)", k, pooledMarked))
+		}
 	}
 	iv := ik.intervals[0]
 	for _, x := range ik.intervals {
@@ -1227,6 +1271,103 @@ func caseBatch(c *core.Ctx, r *rand.Rand) {
 	if anyAbsent {
 		c.Branch("route/rows-for-absent-shard")
 	}
+}
+
+var influxKeyPool = []string{"a_last", "b_first", "c_sum", "d", "e1", "HistogramX_last", "__bucket_9_sum", "x.y_last", "поле_sum", "sum", "last", "first", "z_last_x"}
+var influxTokenPool = []string{"1", "-7", "42", "0", "3i", "-4I", "5u", "9U", "1.0", "1e2", "-0", "2E1", "t", "T", "f", "F", "true", "True", "TRUE", "false", "False", "FALSE",
+	"tt", "xf", "Tf", "yF", "tRUE", "nan", "NaN", "NAN", "Inf", "inf", "INF", "-inf", "+Inf", "-Inf", "Infinity", "-Infinity", "+infinity", "INFINITY", "abc", "\"s\"", "1x", "0x10",
+	"i", "u", "12t", "1_000", "99999999999999999999i", "1e999", "infi", "nani", ".", "+", "1.", "7I", "-", "0x1p4", "1i2"}
+
+// caseInfluxFields: the field section of an influx line token by token — classification by the shape
+// of the literal (field / dropped bad field / line-invalidating field), typing by key suffix, the
+// drop-and-continue loop and RowBuilder's per-field checks — against the Lean model of parseField /
+// parseFields / AddSimpleField, with strconv's results supplied as the model's parameter.
+func caseInfluxFields(c *core.Ctx, r *rand.Rand) {
+	cf := &cfg{lim: limits{isDefault: true, maxName: 256, maxField: 128, maxTagKey: 128, maxTagVal: 1024, maxTags: 32, maxFields: 256}}
+	if r.Intn(4) == 0 {
+		cf.lim = limits{maxName: 256, maxField: []int{0, 6, 128}[r.Intn(3)], maxTagKey: 128, maxTagVal: 1024, maxTags: 32, maxFields: []int{0, 1, 2, 256}[r.Intn(4)]}
+	}
+	n := 1 + r.Intn(5)
+	var parts, ops []string
+	allSupported := true
+	for i := 0; i < n; i++ {
+		k := pick(r, influxKeyPool)
+		v := pick(r, influxTokenPool)
+		pi, pf := "-", "-"
+		tail := v[len(v)-1]
+		if strings.IndexByte("iIuU", tail) >= 0 {
+			if x, err := strconv.ParseInt(v[:len(v)-1], 10, 64); err == nil {
+				pi = strconv.FormatInt(x, 10)
+			}
+		}
+		fl, ferr := strconv.ParseFloat(v, 64)
+		if ferr == nil {
+			pf = showFloat(fl)
+			if strings.HasPrefix(pf, "float(") {
+				continue // not exactly an integer: outside the value abstraction
+			}
+			// the contract assumed of strconv (StrconvSpec)
+			if strings.IndexByte("iIuUtT", tail) >= 0 || strings.IndexByte("fF", tail) >= 0 && !math.IsInf(fl, 0) {
+				c.Fail("strconv-contract", fmt.Sprintf("ParseFloat(%q) = %v", v, fl))
+			}
+		}
+		isBool := v == "t" || v == "T" || v == "f" || v == "F" || v == "true" || v == "True" || v == "TRUE" || v == "false" || v == "False" || v == "FALSE"
+		if !(isBool || pi != "-" || ferr == nil) {
+			allSupported = false
+		}
+		parts = append(parts, k+"="+v)
+		ops = append(ops, fmt.Sprintf("%s:%s:%s:%s", hx(k), hx(v), pi, pf))
+	}
+	if len(parts) == 0 {
+		return
+	}
+	line := "m,t=1 " + strings.Join(parts, ",") + " 1700000000000"
+	var b *metric.BrokerBatchRows
+	panicked := func() (p bool) {
+		defer func() {
+			if recover() != nil {
+				p = true
+			}
+		}()
+		b, _ = parseInflux(cf, "ns", []string{line})
+		return false
+	}()
+	if panicked {
+		lone := false
+		for _, p := range parts {
+			v := p[strings.IndexByte(p, '=')+1:]
+			if v == "i" || v == "I" || v == "u" || v == "U" {
+				lone = true
+			}
+		}
+		if lone {
+			c.Fail(keyInfluxSuffixPanic, fmt.Sprintf("influx.Parse panics on line %q", line)) // recorded finding, see witnessInfluxSuffixPanic
+		} else {
+			c.Fail("panic", fmt.Sprintf("influx.Parse panics on line %q", line))
+		}
+		return
+	}
+	out := "rejected"
+	stored := 0
+	if b != nil && b.Len() == 1 {
+		o, mism := observe(&b.Rows()[0])
+		if o == nil {
+			c.Fail("row-unreadable", "influx fields: "+mism)
+			return
+		}
+		stored = len(o.fshow)
+		out = "stored " + strings.Join(o.fshow, ",")
+	}
+	c.Op(fmt.Sprintf("ifields %d %d | %s", cf.lim.maxFields, cf.lim.maxField, strings.Join(ops, " ")), out)
+	c.NonTrivial()
+	// the statement itself: with supported literals only, the line is rejected or no token is lost
+	if allSupported && out != "rejected" && stored < len(parts) {
+		c.Fail("influx-supported-field-dropped", fmt.Sprintf("line %q: every field token is a boolean / integer / float literal, %d tokens, %d fields stored", line, len(parts), stored))
+	}
+	if allSupported {
+		c.Branch("influx-fields/all-supported")
+	}
+	c.Branch("influx-fields/" + strings.SplitN(out, " ", 2)[0])
 }
 
 // handedOut counts the rows the shard/family iterators hand out, without reading any of them.
